@@ -55,8 +55,15 @@ def gen_case(rng, tier="quick"):
          "start_time": _pick(rng, [0.0, 0.0, 0.35, -1.0])}
     ops = []
     nops = rng.randrange(2, 8)
+    # a few long computations: anything that only happens after many steps
+    # (chunks, periodic work, counters, buffers that grow)
+    long_run = rng.random() < 0.06
     if method == "tempo":
+        if long_run:
+            case["n"] = n = rng.randrange(33, 140)
         m["dkmax"] = _pick(rng, [None, 1, 2, 3], [2, 2, 3, 2])
+        if long_run and m["dkmax"] is None:
+            m["dkmax"] = 3
         m["system"] = _pick(rng, ["td", "td", "const"])
         m["dissipation"] = rng.random() < 0.6
         m["unique"] = rng.random() < 0.25
@@ -85,7 +92,11 @@ def gen_case(rng, tier="quick"):
         ops.append(["compute", n])
     elif method == "mean_field":
         case["n"] = n = rng.randrange(3, 7)
+        if long_run:
+            case["n"] = n = rng.randrange(33, 80)
         m["dkmax"] = _pick(rng, [None, 1, 2])
+        if long_run and m["dkmax"] is None:
+            m["dkmax"] = 2
         m["nsys"] = _pick(rng, [1, 2, 2])
         m["unique"] = rng.random() < 0.25
         m["subdiv"] = None
@@ -114,6 +125,9 @@ def gen_case(rng, tier="quick"):
         case["n"] = n = rng.randrange(2, 6)
         m["sites"] = _pick(rng, [2, 3, 3])
         m["pts"] = _pick(rng, ["none", "first", "all"])
+        if long_run:
+            case["n"] = n = rng.randrange(20, 45)
+            m["pts"] = _pick(rng, ["none", "first"])
         m["order"] = _pick(rng, [1, 2])
         m["epsrel"] = _pick(rng, [1e-11, 1e-12])
         m["controls"] = rng.random() < 0.4
@@ -169,6 +183,9 @@ def shrink(case):
     ops = case["ops"]
     for i in range(len(ops)):
         c = dict(case); c["ops"] = ops[:i] + ops[i + 1:]; out.append(c)
+    if case["n"] > 8:
+        c = dict(case); c["n"] = case["n"] // 2
+        c["ops"] = [_clip(op, c["n"]) for op in ops]; out.append(c)
     if case["n"] > 2:
         c = dict(case); c["n"] = case["n"] - 1
         c["ops"] = [_clip(op, c["n"]) for op in ops]; out.append(c)
